@@ -17,26 +17,27 @@ def cfgF (m : Option (List Nat)) : FState :=
 def cfgS (m : Option (List Nat)) : SState :=
   match m with | none => Full.sinit false none | some l => Full.sinit true (some l)
 
-/-- admissible input: 1-based indices, and the regularisation list stored with the data resolves
+/-- admissible input: 1-based indices within the system (`1..n`, round 4: bounded), and the regularisation list stored with the data resolves
     the defect for every algorithm (the property's quantifier) -/
 structure AInput.Ok (inp : AInput) : Prop where
   pos : inp.env.Pos
-  rowsPos : ∀ i, ∀ c ∈ inp.rows i, 1 ≤ c
+  rowsPos : ∀ i, ∀ c ∈ inp.rows i, 1 ≤ c ∧ c ≤ inp.env.n
   envRes : inp.env.nullity = 0 ∨ inp.env.resolves (C04.eff inp.env inp.minx) = true
   chol : Full.Inv .chol inp.chol (cfgF inp.minx)
   gso : Full.Inv .gso inp.gso (cfgF inp.minx)
   svd : Full.SInv inp.svd (cfgS inp.minx)
 
-def QOp.Valid : QOp → Prop
-  | .qxx i j => 1 ≤ i ∧ 1 ≤ j
-  | .q0xx i j => 1 ≤ i ∧ 1 ≤ j
+def QOp.Valid (n : Nat) : QOp → Prop
+  | .qxx i j => (1 ≤ i ∧ i ≤ n) ∧ (1 ≤ j ∧ j ≤ n)
+  | .q0xx i j => (1 ≤ i ∧ i ≤ n) ∧ (1 ≤ j ∧ j ≤ n)
   | _ => True
 
-def AOp.Valid : AOp → Prop
-  | .qxx i j => 1 ≤ i ∧ 1 ≤ j
+/-- cofactor indices are unknowns of the system (`1 ≤ i ≤ n`) -/
+def AOp.Valid (n : Nat) : AOp → Prop
+  | .qxx i j => (1 ≤ i ∧ i ≤ n) ∧ (1 ≤ j ∧ j ≤ n)
   | _ => True
 
-instance (o : AOp) : Decidable o.Valid := by
+instance (n : Nat) (o : AOp) : Decidable (o.Valid n) := by
   cases o <;> simp only [AOp.Valid] <;> infer_instance
 
 def AOp.IsQuery : AOp → Prop
@@ -57,14 +58,14 @@ def sspecOf (inp : AInput) : Alg → QOp → SOut
   | .gso, q => .full (Full.spec .gso inp.gso (Full.eff inp.gso (cfgF inp.minx)) q.toFull)
   | .svd, q => .full (Full.sspec inp.svd (Full.seff (cfgS inp.minx)) q.toFull)
 
-theorem toEnv_valid {q : QOp} (hv : q.Valid) : q.toEnv.Valid ∧ q.toEnv.IsQuery := by
+theorem toEnv_valid {n : Nat} {q : QOp} (hv : q.Valid n) : q.toEnv.Valid n ∧ q.toEnv.IsQuery := by
   cases q <;> simp_all [QOp.toEnv, C04.Op.Valid, C04.Op.IsQuery, QOp.Valid]
 
 theorem toFull_ok (inp : Full.Input) (q : QOp) : q.toFull.Ok inp ∧ q.toFull.IsQuery := by
   cases q <;> simp [QOp.toFull, Full.Op.Ok, Full.Op.IsQuery]
 
 theorem solver_step_spec {inp : AInput} (hok : inp.Ok) {sv : Solver} (h : SolverInv inp sv)
-    (q : QOp) (hv : q.Valid) :
+    (q : QOp) (hv : q.Valid inp.env.n) :
     SolverInv inp (sv.step inp q).1 ∧ (sv.step inp q).2 = sspecOf inp sv.alg q
     ∧ (sv.step inp q).1.alg = sv.alg := by
   cases sv with
@@ -265,7 +266,7 @@ def aspec (inp : AInput) (a : Alg) : AOp → AOut
   | .set => .ok
 
 theorem qbbLoop_spec {inp : AInput} (hok : inp.Ok) (ps : List (Nat × Nat))
-    (hps : ∀ p ∈ ps, 1 ≤ p.1 ∧ 1 ≤ p.2) :
+    (hps : ∀ p ∈ ps, (1 ≤ p.1 ∧ p.1 ≤ inp.env.n) ∧ (1 ≤ p.2 ∧ p.2 ≤ inp.env.n)) :
     ∀ (sv : Solver) (acc : List SOut), SolverInv inp sv →
       SolverInv inp (qbbLoop inp sv ps acc).1 ∧ (qbbLoop inp sv ps acc).1.alg = sv.alg
       ∧ (qbbLoop inp sv ps acc).2.2 = none
@@ -275,7 +276,7 @@ theorem qbbLoop_spec {inp : AInput} (hok : inp.Ok) (ps : List (Nat × Nat))
   | cons p ps ih =>
     intro sv acc h
     obtain ⟨a, b⟩ := p
-    have hv : (QOp.q0xx a b).Valid := hps (a, b) (List.mem_cons_self ..)
+    have hv : (QOp.q0xx a b).Valid inp.env.n := hps (a, b) (List.mem_cons_self ..)
     have s1 := solver_step_spec hok h (.q0xx a b) hv
     have t1 := sspecOf_noThrow hok sv.alg (.q0xx a b)
     have := ih (fun p hp => hps p (List.mem_cons_of_mem _ hp)) (sv.step inp (.q0xx a b)).1
@@ -287,13 +288,13 @@ theorem qbbLoop_spec {inp : AInput} (hok : inp.Ok) (ps : List (Nat × Nat))
     simp
 
 theorem qbbPairs_pos {inp : AInput} (hok : inp.Ok) (i j : Nat) :
-    ∀ p ∈ qbbPairs inp i j, 1 ≤ p.1 ∧ 1 ≤ p.2 := by
+    ∀ p ∈ qbbPairs inp i j, (1 ≤ p.1 ∧ p.1 ≤ inp.env.n) ∧ (1 ≤ p.2 ∧ p.2 ≤ inp.env.n) := by
   intro p hp
   simp only [qbbPairs, List.mem_flatMap, List.mem_map] at hp
   obtain ⟨jn, hjn, in_, hin, rfl⟩ := hp
   exact ⟨hok.rowsPos i in_ hin, hok.rowsPos j jn hjn⟩
 
-theorem astep_spec {inp : AInput} (hok : inp.Ok) {s : AState} (h : AInv inp s) (op : AOp) (hv : op.Valid) :
+theorem astep_spec {inp : AInput} (hok : inp.Ok) {s : AState} (h : AInv inp s) (op : AOp) (hv : op.Valid inp.env.n) :
     AInv inp (astep inp s op).1 ∧ (astep inp s op).2 = aspec inp s.alg op
     ∧ (op.IsQuery → (astep inp s op).1.alg = s.alg) := by
   have he := ensure_spec hok h
@@ -340,26 +341,26 @@ theorem ainv_init (inp : AInput) (a : Alg) : AInv inp (ainit a) :=
   ⟨fun hh => absurd hh (by simp [ainit])⟩
 
 theorem arun_inv {inp : AInput} (hok : inp.Ok) {s : AState} (h : AInv inp s) {ops : List AOp}
-    (hops : ∀ o ∈ ops, o.Valid) : AInv inp (arun inp s ops) := by
+    (hops : ∀ o ∈ ops, o.Valid inp.env.n) : AInv inp (arun inp s ops) := by
   induction ops generalizing s with
   | nil => exact h
   | cons o ops ih =>
     exact ih (astep_spec hok h o (hops o (List.mem_cons_self ..))).1
       (fun o' ho' => hops o' (List.mem_cons_of_mem _ ho'))
 
-theorem astep_eq_fresh {inp : AInput} (hok : inp.Ok) {s : AState} (h : AInv inp s) (op : AOp) (hv : op.Valid) :
+theorem astep_eq_fresh {inp : AInput} (hok : inp.Ok) {s : AState} (h : AInv inp s) (op : AOp) (hv : op.Valid inp.env.n) :
     (astep inp s op).2 = afresh inp s.alg op := by
   rw [(astep_spec hok h op hv).2.1]
   unfold afresh
   rw [(astep_spec hok (ainv_init inp s.alg) op hv).2.1]
   rfl
 
-theorem astep_twice {inp : AInput} (hok : inp.Ok) {s : AState} (h : AInv inp s) (q : AOp) (hv : q.Valid)
+theorem astep_twice {inp : AInput} (hok : inp.Ok) {s : AState} (h : AInv inp s) (q : AOp) (hv : q.Valid inp.env.n)
     (hq : q.IsQuery) : (astep inp (astep inp s q).1 q).2 = (astep inp s q).2 := by
   have h1 := astep_spec hok h q hv
   rw [(astep_spec hok h1.1 q hv).2.1, h1.2.1, h1.2.2 hq]
 
-theorem astep_after_set {inp : AInput} (hok : inp.Ok) {s : AState} (h : AInv inp s) (q : AOp) (hv : q.Valid) :
+theorem astep_after_set {inp : AInput} (hok : inp.Ok) {s : AState} (h : AInv inp s) (q : AOp) (hv : q.Valid inp.env.n) :
     (astep inp (astep inp s .set).1 q).2 = (astep inp s q).2 := by
   have h1 := astep_spec hok h .set trivial
   rw [(astep_spec hok h1.1 q hv).2.1, (astep_spec hok h q hv).2.1]
@@ -367,7 +368,7 @@ theorem astep_after_set {inp : AInput} (hok : inp.Ok) {s : AState} (h : AInv inp
 
 /-- switching the algorithm and back changes no answer -/
 theorem astep_roundtrip {inp : AInput} (hok : inp.Ok) {s : AState} (h : AInv inp s) (a : Alg)
-    (mid : List AOp) (hmid : ∀ o ∈ mid, o.Valid ∧ o.IsQuery) (q : AOp) (hv : q.Valid) :
+    (mid : List AOp) (hmid : ∀ o ∈ mid, o.Valid inp.env.n ∧ o.IsQuery) (q : AOp) (hv : q.Valid inp.env.n) :
     (astep inp (astep inp (arun inp (astep inp s (.setAlg a)).1 mid) (.setAlg s.alg)).1 q).2
       = (astep inp s q).2 := by
   have h1 := astep_spec hok h (.setAlg a) trivial
